@@ -35,6 +35,8 @@ class Registry:
                     evs.append(['msg', c, t, 'greg_recv'])
                 if inst is None or inst['pos'] < len(SCRIPT):
                     evs.append(['msg', c, t, 'next'])
+                if inst is not None:
+                    evs.append(['msg', c, t, 'orphan'])
         for c in DESTROY:
             evs.append(['destroy', c])
         return evs
@@ -75,17 +77,27 @@ def run_hist(hist, check_from=0):
                     reg.instances.append(inst)
                     want_out.append('New %s connection %s' % (role_word(role), inst['name']))
                 inst = reg.instances[reg.open[c]]
-                if kind == 'next':
-                    sev = SCRIPT[inst['pos']]
-                    inst['pos'] += 1
+                if kind == 'orphan':
+                    # the target's creation was never seen (the debugger attached late): shown unresolved, tolerated
+                    server = bool(inst['role'])
+                    msg = {'t_us': T + n * 100, 'sent': server, 'iface': 'zz_q', 'id': 77, 'name': 'foo', 'args': [['int', 1]], 'queue': None, 'conn': None}
+                    m = gdbenv.closure_from_print(msg, side='server' if server else 'client', conn=c, thread=t)
+                    loc = inf.present(m)
+                    inst['ref'].nmsg += 1
+                    want_out.append(('orphan', inst['name'], None))
+                    warn_ok = inst['role'] is not False and t != inst['thread']
                 else:
-                    sev = ['get_registry']
-                server = bool(inst['role'])
-                msg, exp = ot.build(sev, inst['ref'], T + n * 100, server_side=server)
-                m = gdbenv.closure_from_print(msg, side='server' if server else 'client', conn=c, thread=t)
-                loc = inf.present(m)
-                want_out.append(('message', inst['name'], exp))
-                warn_ok = inst['role'] is not False and t != inst['thread']
+                    if kind == 'next':
+                        sev = SCRIPT[inst['pos']]
+                        inst['pos'] += 1
+                    else:
+                        sev = ['get_registry']
+                    server = bool(inst['role'])
+                    msg, exp = ot.build(sev, inst['ref'], T + n * 100, server_side=server)
+                    m = gdbenv.closure_from_print(msg, side='server' if server else 'client', conn=c, thread=t)
+                    loc = inf.present(m)
+                    want_out.append(('message', inst['name'], exp))
+                    warn_ok = inst['role'] is not False and t != inst['thread']
             sut.LOG.take()
             try:
                 ret = env['bps'][loc].stop()
@@ -104,7 +116,8 @@ def run_hist(hist, check_from=0):
             if ret is not False:
                 V.append(Violation('connections.halted', case, dict(step, returned=ret)))
             errs = [l for l in new_err if not (l.startswith('Warning:') and warn_ok)]
-            if errs or [l for l in logs if l[0] in ('ERROR', 'CRITICAL')]:
+            is_orphan = ev[0] == 'msg' and ev[3] == 'orphan'
+            if errs or [l for l in logs if l[0] in ('ERROR', 'CRITICAL') and not is_orphan]:
                 V.append(Violation('connections.error_output', case, dict(step, err=new_err, log=logs)))
             if len(new_out) != len(want_out):
                 V.append(Violation('connections.output', case, dict(step, expected=[w if isinstance(w, str) else 'message on ' + w[1] for w in want_out],
@@ -114,6 +127,9 @@ def run_hist(hist, check_from=0):
                 if isinstance(w, str):
                     if l != w:
                         V.append(Violation('connections.notice', case, dict(step, expected=w, observed=l)))
+                elif w[0] == 'orphan':
+                    if outparse.classify(l)[0] != 'message' or '@77' not in l or '.foo(' not in l:
+                        V.append(Violation('connections.orphan_not_shown', case, dict(step, observed=l)))
                 else:
                     cl, r = outparse.classify(l)
                     if cl != 'message' or r['conn'] != w[1]:
@@ -130,6 +146,14 @@ def run_hist(hist, check_from=0):
             want = [(i['name'], i['role'], i['open'], i['ref'].nmsg) for i in reg.instances]
             if got != want:
                 V.append(Violation('connections.listing', case, {'expected': want, 'observed': got}))
+            else:
+                # merged on the reference registry: every connection's object table must equal the reference
+                from . import histcheck as hc
+                for c, i in zip(conns, reg.instances):
+                    sub = []
+                    hc.check_state(c, i['ref'], case, sub)
+                    for v in sub:
+                        V.append(Violation('connections.' + v.kind, case, dict(v.detail, connection=i['name'])))
     except Exception:
         V.append(sut.exc_violation(case))
     return V, reg
